@@ -59,7 +59,7 @@ theorem Wiring.mem_akeys_of_mem_outputComponents {w : Wiring} {c : Comp}
     (h : c ∈ w.outputComponents) : c ∈ akeys w := by
   unfold Wiring.outputComponents at h
   obtain ⟨e, he, rfl⟩ := List.mem_map.1 h
-  exact mem_akeys_of_mem (List.mem_filter.1 he).1
+  exact rt_mem_akeys_of_mem (List.mem_filter.1 he).1
 
 theorem Wiring.mem_components (w : Wiring) (c : Comp) :
     c ∈ w.components ↔ c ∈ w.inputComponents ∨ c ∈ akeys w := by
@@ -205,7 +205,7 @@ theorem mem_akeys_invStep (acc : List (Comp × List Comp)) (e : Comp × List Com
     (view := fun acc c => c ∈ akeys acc)
     (f := fun acc dep => upsert acc dep (sinsert (agetD acc dep []) e.1))
     (P := fun dep c => c = dep) e.2
-    (fun dep _ s c => mem_akeys_upsert) acc b
+    (fun dep _ s c => rt_mem_akeys_upsert) acc b
   simpa using key
 
 theorem Wiring.mem_agetD_inverseTree (w : Wiring) (b a : Comp) :
@@ -269,7 +269,7 @@ theorem Wiring.mem_ups_iff' {w : Wiring} (h : w.WF) {b : Comp} {us : List Comp}
 
 theorem Wiring.ups_isSome_iff' (w : Wiring) (b : Comp) : (w.ups b).isSome ↔ b ∈ w.components := by
   unfold Wiring.ups
-  rw [alookup_isSome_iff, Wiring.mem_akeys_inverseTree]
+  rw [rt_alookup_isSome_iff, Wiring.mem_akeys_inverseTree]
   constructor
   · rintro (h | ⟨ent, _, hb⟩)
     · exact h
